@@ -117,6 +117,8 @@ def meaningful(tokens):
 # value pools
 INT_OK = ["0", "1", "5", "-3", "42", "0x1f", "0b101", "017", "-0", "123456789", "0x0", "9223372036854775807",
           "-9223372036854775808", "00"]
+# numerals whose acceptance the statement leaves open (rare: a text with one of them is "grey" for most oracles)
+INT_GREY = ["-017", "-0x1F", "+0x10", "-010", " 12", "+7", "-0b11"]
 INT_BAD = ["x", "1x", "1.5", "0x", "08", "99999999999999999999", "", "--1", "0b2", "1 2"]
 FLOAT_OK = ["0", "1.5", "-2", "1e3", ".5", "3.", "-0.25", "1E-2", "100", "6.02e23"]
 FLOAT_BAD = ["x", "1.5x", "1e999", "", "1,5", "--1"]
@@ -146,6 +148,8 @@ def value_tok(draw, kind, bad_p=0.03):
         v = draw(st.sampled_from(INT_BAD if bad else INT_OK))
         if not bad and draw(st.integers(0, 3)) == 0:
             v = str(draw(st.integers(-10**6, 10**6)))
+        elif not bad and draw(st.integers(0, 29)) == 0:
+            v = draw(st.sampled_from(INT_GREY))
     elif kind == "float":
         v = draw(st.sampled_from(FLOAT_BAD if bad else FLOAT_OK))
     elif kind == "bool":
